@@ -47,13 +47,15 @@ func UnpadMessage(padded []byte) ([]byte, error) {
 		return nil, fmt.Errorf("invalid varint prefix in padded message: %d", varintLen)
 	}
 
-	end := uint64(varintLen) + msgLen
-	if end > uint64(len(padded)) {
+	// Compare without adding: uint64(varintLen)+msgLen can wrap around for a hostile length prefix,
+	// which would pass an `end > len` check and make the slice expression below panic.
+	if msgLen > uint64(len(padded)-varintLen) {
 		return nil, fmt.Errorf(
 			"varint length %d exceeds available data (have %d bytes after prefix)",
 			msgLen, len(padded)-varintLen,
 		)
 	}
 
+	end := uint64(varintLen) + msgLen
 	return padded[varintLen:end], nil
 }
